@@ -130,6 +130,18 @@ def locks_in_cone(prog, body_id, seen=None):
     return out
 
 
+def closure_locks(prog, bi, rv, depth=0):
+    """locks acquired by the closure built by aggregate rv, or by a closure it captures"""
+    clo = prog.qual(bi.body, rv.j["def"])
+    out = list(locks_in_cone(prog, clo)) if prog.facts.body(clo) is not None else []
+    if depth < 4:
+        for op in rv.ops:
+            o = bi.trace(op)
+            if o.kind == "agg" and not o.path and bi.agg_at(o.data).j.get("ak") == "closure":
+                out.extend(closure_locks(prog, bi, bi.agg_at(o.data), depth + 1))
+    return out
+
+
 def closure_arg_locks(prog, callee_body):
     """locks acquired by closures that callers hand to `callee_body` (a method that invokes a closure parameter)"""
     out = []
@@ -216,6 +228,12 @@ def r07_3(prog, out):
                         if pty.startswith("impl ") or (pty.isidentifier() and pty[:1].isupper() and len(pty) <= 2) or "Fn(" in pty or "FnMut(" in pty or "FnOnce(" in pty:
                             for (l2, ib, ibb) in closure_arg_locks(prog, b):
                                 nested.append((l2, ib, ibb))
+                # a closure built in this body and handed to a call (iter().filter_map(|e| f(e)).collect()) runs under the lock,
+                # and so does every closure it captures
+                for a in tt.args:
+                    o = bi.trace(a)
+                    if o.kind == "agg" and not o.path and bi.agg_at(o.data).j.get("ak") == "closure":
+                        nested.extend(closure_locks(prog, bi, bi.agg_at(o.data)))
                 if tt.callee.path in L.LOCK_ACQUIRE:
                     nested.append((lock_identity(bi, tt), b.id, x))
                 elif tt.callee.res_local or tt.callee.local:
